@@ -843,6 +843,13 @@ pub fn run(c: &mut Ctx) {
             if txt(x) != ref_offset(o) {
                 c.fail("FixedOffset text is not +hh:mm[:ss]", &format!("{:?} for {}", txt(x), o));
             }
+            if o % 60 != 0 {
+                // theorem `FixedOffset_with_seconds_reads_truncated` (outside the property's side condition)
+                let got = guard(|| txt(x).parse::<FixedOffset>().ok().map(|b| b.local_minus_utc()));
+                if got != Ok(Some(o - o % 60)) {
+                    c.fail("FixedOffset with a seconds part does not read as the offset truncated to minutes", &format!("{} text {:?} -> {:?}", o, txt(x), got));
+                }
+            }
             if o % 60 == 0 && guard(|| txt(x).parse::<FixedOffset>().ok() == Some(f)) != Ok(true) {
                 c.fail(&format!("FixedOffset {} does not parse back", form), &format!("{} text {:?}", o, txt(x)));
             }
